@@ -77,30 +77,35 @@ structure PointOps (P : Type) where
   mkPoint : Int → Int → P
   /-- `A if isinstance(A, PointJacobi) else PointJacobi.from_affine(A)` (`from_public_point`) -/
   fromAffine : P → P
+  /-- `isinstance(A, ellipticcurve.Point) and A == INFINITY` (= `not isinstance(A, PointJacobi) and A == INFINITY`):
+  the object is the legacy-class point at infinity (F14) -/
+  isInfObj : P → Bool
 
 variable {P : Type}
 
 /-! ### `ecdsa.Public_key` -/
 
 /-- the checks of `Public_key.__init__(generator, point, verify)`: `.ok false` = `InvalidPointError` is raised -/
-def publicKeyCheck (ops : PointOps P) (point : P) (verify : Bool) : Res Bool := do
+def publicKeyCheck (ops : PointOps P) (point : P) (verify : Bool) : Res Bool :=
   let n := ops.order
   let p := ops.p
-  let x ← ops.xOf point
-  -- `not (0 <= point.x() < p) or not (0 <= point.y() < p)`: `point.y()` is evaluated only if x is in range
-  if Gen.Ecdsa.pubkey_x_out x p then .ok false
-  else
-    let y ← ops.yOf point
-    if Gen.Ecdsa.pubkey_y_out y p then .ok false
-    else do
-      let x ← ops.xOf point
+  if ops.isInfObj point then .ok false   -- "The public point is the point at infinity." (F14)
+  else do
+    let x ← ops.xOf point
+    -- `not (0 <= point.x() < p) or not (0 <= point.y() < p)`: `point.y()` is evaluated only if x is in range
+    if Gen.Ecdsa.pubkey_x_out x p then .ok false
+    else
       let y ← ops.yOf point
-      if verify && !(ops.containsPoint x y) then .ok false
-      else if Gen.Ecdsa.pubkey_no_order n then .ok false
-      else if verify && !ops.cofactorIsOne then do
-        let t ← ops.mul n point
-        if !(ops.isInfinity t) then .ok false else .ok true
-      else .ok true
+      if Gen.Ecdsa.pubkey_y_out y p then .ok false
+      else do
+        let x ← ops.xOf point
+        let y ← ops.yOf point
+        if verify && !(ops.containsPoint x y) then .ok false
+        else if Gen.Ecdsa.pubkey_no_order n then .ok false
+        else if verify && !ops.cofactorIsOne then do
+          let t ← ops.mul n point
+          if !(ops.isInfinity t) then .ok false else .ok true
+        else .ok true
 
 /-- `Public_key(generator, point, verify)`; `InvalidPointError` is a `RuntimeError` -/
 def publicKeyInit (ops : PointOps P) (point : P) (verify : Bool := true) : Res P := do
@@ -199,9 +204,11 @@ def truncateAndConvertDigest (digest : Bytes) (baselen : Nat) (order : Int) (all
 def baselen (ops : PointOps P) : Nat := Util.orderlen ops.order.toNat
 
 /-- `VerifyingKey.from_public_point(point, curve, hashfunc, validate_point)`: the key *is* its point -/
-def fromPublicPoint (ops : PointOps P) (point : P) (validate : Bool := true) : Res P := do
-  let point := ops.fromAffine point
-  if (← publicKeyCheck ops point validate) then .ok point else .error .malformedPoint
+def fromPublicPoint (ops : PointOps P) (point : P) (validate : Bool := true) : Res P :=
+  if ops.isInfObj point then .error .malformedPoint   -- "Point at infinity is not a valid public point" (F14)
+  else do
+    let point := ops.fromAffine point
+    if (← publicKeyCheck ops point validate) then .ok point else .error .malformedPoint
 
 /-- the `try … except (der.UnexpectedDER, MalformedSignature)` of `verify_digest` -/
 def mapDecodeError {α} : Res α → Res α
